@@ -45,6 +45,10 @@ FP(op) ==
     [] op = "build-gen"       -> [r |-> {}, w |-> {}, lock |-> {}]                      \* generated prototypes carry no state
     [] op = "ts-clone"        -> [r |-> {"typesystem"}, w |-> {}, lock |-> {}]       \* copying a type reads its source only
     [] op = "ts-merge"        -> [r |-> {"typesystem"}, w |-> {}, lock |-> {}]       \* the target is private to the caller
+    \* binding one (Go type, schema type) pair with and without the custom converter that makes it compatible: the
+    \* verdict (accepted / refused) is a function of the call's own arguments, so neither writes anything shared
+    [] op = "bind-plain"      -> [r |-> {"typesystem"}, w |-> {}, lock |-> {}]
+    [] op = "bind-converter"  -> [r |-> {"typesystem"}, w |-> {}, lock |-> {}]
 
 VARIABLES plan,     \* [1..NG -> Seq(op)]: what each goroutine will do (chosen at Init)
           pc,       \* [1..NG -> index of the operation in progress or next]
